@@ -76,9 +76,9 @@ type WorkerOut struct {
 	Commit   []CommitCase   `json:"commit_cases"`
 	Fatal    string         `json:"fatal,omitempty"`
 	// directed scenario createfail: "ok" or the step that did not return / panicked (+ all goroutine stacks)
-	CreateFail       string `json:"createfail,omitempty"`
-	CreateFailStacks string `json:"createfail_stacks,omitempty"`
-	Timing   []string       `json:"timing"`
+	CreateFail       string   `json:"createfail,omitempty"`
+	CreateFailStacks string   `json:"createfail_stacks,omitempty"`
+	Timing           []string `json:"timing"`
 }
 
 // CommitCase: one block whose commitTxs outcome is compared with the Lean fan-out model.
@@ -153,12 +153,12 @@ func (rc *recorder) hook(name string) {
 
 func (rc *recorder) addSnap(s Snap) {
 	s.Cfg = rc.cfg
+	rc.mu.Lock()
 	if w, ok := rc.want[s.Hash]; ok {
 		s.Want, s.WantH = w.Dump, int64(w.Height)
 	} else {
 		s.WantH = -1
 	}
-	rc.mu.Lock()
 	rc.snaps = append(rc.snaps, s)
 	rc.mu.Unlock()
 }
@@ -332,6 +332,36 @@ func genScenario(seed uint64, thorough bool, gt uint32, compr bool) (*scenario, 
 		sc.ops = append(sc.ops, op)
 		sc.ref = append(sc.ref, r)
 		sc.hist["op:"+op.Kind]++
+		if op.Kind == "block" {
+			// hypothesis Nodup of disjoint_updates_commute on this block: the HashMap keys (first 8 txid bytes) of all records
+			// UnspentDB.commit adds (one per transaction) or deletes/rewrites (one per spent txid) are pairwise different
+			if bl, e := btc.NewBlock(op.Raw); e == nil && bl.BuildTxList() == nil && len(bl.Txs) > 1 {
+				full := map[[32]byte]bool{}
+				pref := map[[8]byte]bool{}
+				add := func(h []byte) {
+					var f [32]byte
+					var p [8]byte
+					copy(f[:], h)
+					copy(p[:], h)
+					if !full[f] {
+						full[f] = true
+						if pref[p] {
+							sc.hist["commit:update-keys-COLLIDE"]++
+						}
+						pref[p] = true
+					}
+				}
+				for i, tx := range bl.Txs {
+					add(tx.Hash.Hash[:])
+					if i > 0 {
+						for _, in := range tx.TxIn {
+							add(in.Input.Hash[:])
+						}
+					}
+				}
+				sc.hist["commit:update-keys-distinct"]++
+			}
+		}
 		return r
 	}
 	for i := 0; i < 108; i++ {
@@ -656,7 +686,10 @@ func directedCreateFail(seed uint64, gt uint32, out *WorkerOut) {
 	rc := &recorder{dir: k.Dir, cfg: "directed-createfail", want: map[string]Res{}}
 	note := func(tag string) {
 		tip, h := k.Tip()
-		rc.want[tip] = Res{Tip: tip, Height: h, Dump: chainkit.DumpHash(chainkit.UtxoDump(k.Ch.Unspent))}
+		res := Res{Tip: tip, Height: h, Dump: chainkit.DumpHash(chainkit.UtxoDump(k.Ch.Unspent))}
+		rc.mu.Lock()
+		rc.want[tip] = res
+		rc.mu.Unlock()
 		rc.ev("h:" + tag)
 	}
 	note("N-1")
